@@ -217,11 +217,17 @@ def run(ck):
                         ck.case(("decision", api, dest, dc, bname), nontrivial=True)
                         target = io.BytesIO() if dest == "stream" else os.path.join(tmpdir, "out" + dest)
                         try:
+                            # an option the caller does not give is LEFT OUT of the call (the defaults in the signatures are part of the rule)
+                            kw = {}
+                            if dc is not None:
+                                kw["do_compress"] = dc
+                            if bk is not None:
+                                kw["laz_backend"] = bk
                             if api == "open":
-                                with laspy.open(target, mode="w", header=las0.header, do_compress=dc, laz_backend=bk, closefd=(dest != "stream")) as w:
+                                with laspy.open(target, mode="w", header=las0.header, closefd=(dest != "stream"), **kw) as w:
                                     w.write_points(las0.points)
                             else:
-                                las0.write(target, do_compress=dc, laz_backend=bk)
+                                las0.write(target, **kw)
                             data = target.getvalue() if dest == "stream" else open(target, "rb").read()
                             got = "1" if data[104] & 0x80 else "0"
                         except Exception as e:
@@ -411,9 +417,13 @@ def run(ck):
                 # ---- non-seekable source (serial backend), EVLRs deferred
                 from .. import streams as st
                 try:
-                    ns = laspy.read(st.ReadOnlyInterface(cdata), laz_backend=LazBackend.Lazrs)
+                    # backend selection: the serial one; the documented list (the parallel variant first: it cannot work on such a source, the next one is
+                    # tried); the default (no backend named)
+                    sel = [("serial", {"laz_backend": LazBackend.Lazrs}), ("list", {"laz_backend": [LazBackend.LazrsParallel, LazBackend.Lazrs]}), ("default", {})][ci % 3]
+                    ck.count("nonseekable_compressed_read:" + sel[0])
+                    ns = laspy.read(st.ReadOnlyInterface(cdata), **sel[1])
                     if canon_no_layout(ns) != canon_no_layout(b):
-                        ck.fail("reading the compressed file from a non-seekable source differs from the uncompressed read", inp)
+                        ck.fail(f"reading the compressed file from a non-seekable source (backend selection: {sel[0]}) differs from the uncompressed read", inp)
                 except laspy.errors.LaspyException as e:
                     key = "C14:nonseekable_zero_points_evlrs" if (n == 0 and evlrs and "non-seekable" in str(e)) else ""
                     ck.fail(f"reading the compressed file from a non-seekable source raised LaspyException: {e} (the uncompressed file is read)",
